@@ -276,15 +276,27 @@ func c12Explore(a, b func()) {
 	if vTier() == 1 {
 		budget = 3
 	}
-	done := make(chan struct{})
+	done := make(chan struct{}, 2)
+	start := make(chan struct{})
+	// the happens-before race detector is on as well: an entry modified in place while a reader uses it
+	// without the lock is a violation even when the values read happen to be consistent
+	vRace(true)
 	vSched(true, budget)
 	go func() {
+		<-start
 		a()
-		close(done)
+		done <- struct{}{}
 	}()
-	b()
+	go func() {
+		<-start
+		b()
+		done <- struct{}{}
+	}()
+	close(start)
+	<-done
 	<-done
 	vSched(false, 0)
+	vRace(false)
 }
 
 // H_C12_resources_same_uri_twice: two goroutines register the same not-yet-registered URI (and a third entry
